@@ -13,26 +13,29 @@ EXTENDS Integers, Sequences, FiniteSets, TLC, Json, SequencesExt
 CONSTANT TraceFile
 Trace == ndJsonDeserialize(TraceFile)
 
-VARIABLES l, cur, refok, on, off, viol, stat
-vars == <<l, cur, refok, on, off, viol, stat>>
+VARIABLES l, cur, refok, on, off, part, viol, stat
+vars == <<l, cur, refok, on, off, part, viol, stat>>
 NoneC == [seen |-> FALSE, ok |-> FALSE, path |-> "", sentinel |-> FALSE, dtrue |-> 0, dfalse |-> 0, execd |-> FALSE, equal |-> TRUE, execsentinel |-> FALSE, shape |-> ""]
 Stat0 == [sc |-> 0, valid |-> 0, native |-> 0, fallback |-> 0, rejected |-> 0, invalid |-> 0]
-Init == l = 1 /\ cur = [id |-> ""] /\ refok = FALSE /\ on = NoneC /\ off = NoneC /\ viol = {} /\ stat = Stat0
+\* part: the construct the text is built around, created on its own (fallback on): [seen, ok, path]
+NoPart == [seen |-> FALSE, ok |-> FALSE, path |-> ""]
+Init == l = 1 /\ cur = [id |-> ""] /\ refok = FALSE /\ on = NoneC /\ off = NoneC /\ part = NoPart /\ viol = {} /\ stat = Stat0
 IsEv(e) == l <= Len(Trace) /\ Trace[l].ev = e /\ l' = l + 1
 
-Header == /\ IsEv("sc") /\ cur' = Trace[l] /\ refok' = FALSE /\ on' = NoneC /\ off' = NoneC
+Header == /\ IsEv("sc") /\ cur' = Trace[l] /\ refok' = FALSE /\ on' = NoneC /\ off' = NoneC /\ part' = NoPart
           /\ stat' = [stat EXCEPT !.sc = @ + 1] /\ UNCHANGED viol
-RefEv == /\ IsEv("ref") /\ refok' = Trace[l].ok /\ UNCHANGED <<cur, on, off, viol, stat>>
+RefEv == /\ IsEv("ref") /\ refok' = Trace[l].ok /\ UNCHANGED <<cur, on, off, part, viol, stat>>
+PartEv == /\ IsEv("part") /\ part' = [seen |-> TRUE, ok |-> Trace[l].ok, path |-> Trace[l].path] /\ UNCHANGED <<cur, refok, on, off, viol, stat>>
 CreateEv == /\ IsEv("create")
             /\ LET e == Trace[l]
                    c == [NoneC EXCEPT !.seen = TRUE, !.ok = e.ok, !.path = e.path, !.sentinel = e.sentinel, !.dtrue = e.dtrue, !.dfalse = e.dfalse]
                IN IF e.fallback THEN on' = c /\ UNCHANGED off ELSE off' = c /\ UNCHANGED on
-            /\ UNCHANGED <<cur, refok, viol, stat>>
+            /\ UNCHANGED <<cur, refok, part, viol, stat>>
 ExecEv == /\ IsEv("exec")
           /\ LET e == Trace[l] IN
              IF e.fallback THEN on' = [on EXCEPT !.execd = TRUE, !.equal = e.equal, !.execsentinel = e.sentinel, !.shape = e.shape] /\ UNCHANGED off
              ELSE off' = [off EXCEPT !.execd = TRUE, !.equal = e.equal, !.execsentinel = e.sentinel, !.shape = e.shape] /\ UNCHANGED on
-          /\ UNCHANGED <<cur, refok, viol, stat>>
+          /\ UNCHANGED <<cur, refok, part, viol, stat>>
 
 V(c, d) == {<<cur.id, c, d>>}
 EndEv ==
@@ -54,17 +57,21 @@ EndEv ==
                 ELSE IF c.ok THEN (IF (c.path = "fallback" /\ c.dtrue = 1 /\ c.dfalse = 0) \/ (c.path = "native" /\ c.dtrue = 0 /\ c.dfalse = 1)
                                    THEN {} ELSE V("F4", "counter does not match the path taken"))
                 ELSE (IF c.dtrue = 0 /\ c.dfalse = 0 THEN {} ELSE V("F4", "counter incremented for a query that was not created"))
-     IN /\ viol' = viol \cup f1 \cup f2 \cup f3 \cup f4(on) \cup f4(off)
+       \* F5: whether a construct is unsupported is decided from the expression alone: a vector or scalar expression that
+       \*     falls back on its own is not evaluated natively (approximately) as a part of a larger query
+       f5 == IF part.seen /\ part.ok /\ part.path = "fallback" /\ ((on.seen /\ on.ok /\ on.path = "native") \/ (off.seen /\ off.ok))
+             THEN V("F5", "a construct that falls back on its own is evaluated natively inside this query") ELSE {}
+     IN /\ viol' = viol \cup f1 \cup f2 \cup f3 \cup f4(on) \cup f4(off) \cup f5
         /\ stat' = [stat EXCEPT !.valid = @ + (IF refok THEN 1 ELSE 0), !.invalid = @ + (IF refok THEN 0 ELSE 1),
                                 !.native = @ + (IF on.ok /\ on.path = "native" THEN 1 ELSE 0),
                                 !.fallback = @ + (IF on.ok /\ on.path = "fallback" THEN 1 ELSE 0),
                                 !.rejected = @ + (IF off.seen /\ ~off.ok THEN 1 ELSE 0)]
-  /\ UNCHANGED <<cur, refok, on, off>>
+  /\ UNCHANGED <<cur, refok, on, off, part>>
 
-DeadEv == /\ IsEv("dead") /\ viol' = viol \cup {<<cur.id, "ProcessDead", Trace[l].why>>} /\ UNCHANGED <<cur, refok, on, off, stat>>
-OtherEv == /\ l <= Len(Trace) /\ Trace[l].ev \notin {"sc", "ref", "create", "exec", "end", "dead"}
-           /\ l' = l + 1 /\ UNCHANGED <<cur, refok, on, off, viol, stat>>
-Next == Header \/ RefEv \/ CreateEv \/ ExecEv \/ EndEv \/ DeadEv \/ OtherEv
+DeadEv == /\ IsEv("dead") /\ viol' = viol \cup {<<cur.id, "ProcessDead", Trace[l].why>>} /\ UNCHANGED <<cur, refok, on, off, part, stat>>
+OtherEv == /\ l <= Len(Trace) /\ Trace[l].ev \notin {"sc", "ref", "part", "create", "exec", "end", "dead"}
+           /\ l' = l + 1 /\ UNCHANGED <<cur, refok, on, off, part, viol, stat>>
+Next == Header \/ RefEv \/ PartEv \/ CreateEv \/ ExecEv \/ EndEv \/ DeadEv \/ OtherEv
 Spec == Init /\ [][Next]_vars
 Done == l = Len(Trace) + 1 => /\ PrintT(<<"VIOL", ToJson(SetToSeq(viol))>>) /\ PrintT(<<"STAT", ToJson(stat)>>)
 Accepted == TLCGet("stats").diameter - 1 = Len(Trace)
